@@ -61,10 +61,50 @@ func heldIn(fn *ssa.Function, in ssa.Instruction, want string) bool {
 }
 
 // callersHold: fn accesses <base>.<field> where base is described in terms of
-// fn's parameters; every call site must hold <actual base>.<lockField>.
+// fn's parameters (or, for a closure, its creator's values: up(X)); every call
+// site must hold <actual base>.<lockField>.
 func callersHold(w *World, fn *ssa.Function, base, lockField string, depth int) (bool, string) {
-	if depth == 0 || fn.Parent() != nil {
+	if depth == 0 {
 		return false, ""
+	}
+	if fn.Parent() != nil {
+		// closure: look at the static calls of it inside its creator
+		m := re(`^up\((.*)\)((?:\.\w+)*)$`).FindStringSubmatch(base)
+		if m == nil {
+			return false, ""
+		}
+		actual := m[1] + m[2]
+		par := fn.Parent()
+		var names []string
+		n := 0
+		ok := true
+		EachInstr(par, func(in ssa.Instruction) {
+			c, isCall := in.(ssa.CallInstruction)
+			if !isCall || staticCallee(c) != fn {
+				return
+			}
+			n++
+			call, plain := in.(*ssa.Call)
+			if !plain {
+				ok = false
+				return
+			}
+			want := strings.TrimPrefix(actual, "&") + "." + lockField
+			if heldIn(par, call, want) {
+				names = append(names, FnName(par))
+				return
+			}
+			if ok2, _ := callersHold(w, par, actual, lockField, depth-1); ok2 {
+				names = append(names, FnName(par)+"(its callers)")
+				return
+			}
+			ok = false
+		})
+		// the closure must not escape (every MakeClosure referrer is a call of it or a store to a local called later)
+		if n == 0 || !ok {
+			return false, ""
+		}
+		return true, strings.Join(names, ", ")
 	}
 	if !re(`^P\d+(\.\w+)*$`).MatchString(base) {
 		return false, ""
